@@ -956,7 +956,8 @@ class Emitter:
                         data = data.encode(self.encoding)
                     self.stream.write(data)
                     start = end+1
-            if 0 < end < len(text)-1 and (ch == ' ' or start >= end)    \
+            if 0 < end < len(text)-1    \
+                    and (ch == ' ' or (start >= end and text[start] != ' '))    \
                     and self.column+(end-start) > self.best_width and split:
                 data = text[start:end]+'\\'
                 if start < end:
